@@ -174,6 +174,17 @@ def check_grammar_case(ctx, factors, uspell, got, text):
     except KeyError:
         gsi = None
     okb = all(gsys[k] == bases[KINDS[k]] for k in range(3) if gdim[k] != 0 and KINDS[k] in bases)
+    if len(factors) <= 2 and tuple(gdim) == dim and gsi == si and okb:
+        # the SI scale as the package itself realises it: 1 <text> expressed in m / s / molecule
+        _, _, _, UnitValue, UnitsSystem, _ = impl()
+        try:
+            one = UnitValue(1.0, text).convert(UnitsSystem("m", "s", "molecule")).value
+        except Exception as ex:  # noqa
+            one = repr(ex)
+        if not close(one, si, rel=1e-12):
+            ctx.violation("grammar-meaning:si-conversion", "1 %s is %r in SI base units, its symbols define %s" % (text, one, common.fstr(si)),
+                          case, impl={"parsed": got, "one_in_SI": one}, expected={"dim": dim, "si": rstr(si)})
+            return
     if tuple(gdim) != dim or gsi != si or not okb:
         key = "grammar-meaning:%s" % ("dim" if tuple(gdim) != dim else "si")
         ctx.violation(key, "%r read as %s %s, its symbols define dimension %s and SI scale %s" % (text, gsys, gdim, dim, common.fstr(si)),
@@ -658,6 +669,10 @@ def replay(ctx, rec):
                 ok = "error" in got
             else:
                 ok = "ok" in got and tuple(got["ok"][1]) == spec[1] and si_factor(got["ok"][0], got["ok"][1]) == spec[2]
+                if ok and len(fs) <= 2:
+                    one = UnitValue(1.0, case["text"]).convert(UnitsSystem("m", "s", "molecule")).value
+                    out["one_in_SI"] = one
+                    ok = close(one, spec[2], rel=1e-12)
     elif kind == "variant":
         g1, g2 = run_parse_units(case["a"]), run_parse_units(case["b"])
         out["impl"] = {"a": g1, "b": g2}
